@@ -497,7 +497,10 @@ def render_def(prog, i, skip_names=()):
         L.append("    xc_ = %s" % dlit(nd["xconst"]))
         L.append("    r += %s" % duse("xc_", nd["xconst"]))
     if nd["sconst"]:
-        L.append("    if \"alpha\" in {%s}:" % ", ".join(repr(s) for s in nd["sconst"]))
+        # a set constant of strings, of bytes, or of tuples that hold strings (by the number of members: no random draw)
+        wrap = {2: lambda s_: repr(s_), 3: lambda s_: repr(s_.encode()), 4: lambda s_: repr((s_, len(s_)))}[len(nd["sconst"])] \
+            if len(nd["sconst"]) in (2, 3, 4) else repr
+        L.append("    if %s in {%s}:" % (wrap("alpha"), ", ".join(wrap(s_) for s_ in nd["sconst"])))
         L.append("        r += 1")
     for rd in nd["reads"]:
         L.append("    r += %s" % read_expr(prog["vars"][rd["v"]], rd["form"]))
